@@ -21,6 +21,11 @@ pub fn check_node_poll(w: &mut World, cid: Cid, flag: u8, parts: &[u64]) {
     if fam == Fam::Co {
         return;
     }
+    if w.post_final {
+        // what a finished stream returns when polled again is unspecified; only child polls are judged (child.rs)
+        w.ch[cid].model.cur.clear();
+        return;
+    }
     let n = w.ch[cid].model.slots.len();
     let cur = std::mem::take(&mut w.ch[cid].model.cur);
     let prop = fam.prop();
